@@ -57,8 +57,10 @@ def next_token(text, prev=None):
     while text.hasNext():
         for name, f in tokenizers:
             current_token = f(text, prev=prev)
-            if current_token is not None:
+            if current_token:
                 return current_token
+            if not text.hasNext():
+                break
 
 
 @to_buffer()
@@ -232,7 +234,8 @@ def tokenize_ignore(text, prev=None):
     >>> print(*tokenize(categorize('\x00hello')))
     hello
     """
-    while text.peek().category in (CC.Ignored, CC.Invalid):
+    while text.hasNext() and \
+            text.peek().category in (CC.Ignored, CC.Invalid):
         text.forward(1)
 
 
